@@ -121,3 +121,38 @@ package types
 //@   props C02 C13
 //@   modifies nothing
 //@   ensures result == !(c == Pending || c == Candidate || c == Proven)
+
+// ---- the claim data inside an imported bridge exit (C10, C09): what its hash commits to. A Merkle proof commits to its
+// root and to all 32 siblings in order; the L1 info leaf commits to the global exit root, the block hash and the
+// timestamp (8 bytes big-endian); a claim commits to its proofs and its L1 leaf in the listed order.
+//@ spec fn proofHash(root Hash, sib []Hash) Hash = keccak(catB(catB(emptyB(), bytesOf(hb(root), 32)), chainH(sib, 32)))
+//@ func (m *MerkleProof) Hash
+//@   props C10 C09
+//@   requires m != nil
+//@   modifies nothing
+//@   ensures[commits-to-root-and-every-sibling-in-order] result == proofHash(m.Root, m.Proof)
+//@   loop 0 invariant 0 <= rangeindex + 1 && rangeindex + 1 <= 32 && off(proofsAsSingleSlice) == 0 && len(proofsAsSingleSlice) == 32 * (rangeindex + 1) && ref(proofsAsSingleSlice) < heapTop
+//@   loop 0 invariant bytesOf(seq(proofsAsSingleSlice), len(proofsAsSingleSlice)) == chainH(m.Proof, rangeindex + 1)
+
+//@ spec fn l1LeafHash(ger Hash, blockHash Hash, ts int) Hash = keccak(catB(catB(catB(emptyB(), bytesOf(hb(ger), 32)), bytesOf(hb(blockHash), 32)), beNB(ts, 8)))
+//@ func (l *L1InfoTreeLeafInner) Hash
+//@   props C10 C09
+//@   requires l != nil
+//@   modifies nothing
+//@   ensures[commits-to-ger-block-hash-and-time] result == l1LeafHash(l.GlobalExitRoot, l.BlockHash, l.Timestamp)
+//@ func (l *L1InfoTreeLeaf) Hash
+//@   props C10 C09
+//@   requires l != nil && l.Inner != nil
+//@   modifies nothing
+//@   ensures[is-the-inner-leafs-hash] result == l1LeafHash(l.Inner.GlobalExitRoot, l.Inner.BlockHash, l.Inner.Timestamp)
+
+//@ func (c *ClaimFromMainnnet) Hash
+//@   props C10 C09
+//@   requires c != nil && c.ProofLeafMER != nil && c.ProofGERToL1Root != nil && c.L1Leaf != nil && c.L1Leaf.Inner != nil
+//@   modifies nothing
+//@   ensures[commits-to-both-proofs-and-the-leaf] result == keccak(catB(catB(catB(emptyB(), bytesOf(hb(proofHash(c.ProofLeafMER.Root, c.ProofLeafMER.Proof)), 32)), bytesOf(hb(proofHash(c.ProofGERToL1Root.Root, c.ProofGERToL1Root.Proof)), 32)), bytesOf(hb(l1LeafHash(c.L1Leaf.Inner.GlobalExitRoot, c.L1Leaf.Inner.BlockHash, c.L1Leaf.Inner.Timestamp)), 32)))
+//@ func (c *ClaimFromRollup) Hash
+//@   props C10 C09
+//@   requires c != nil && c.ProofLeafLER != nil && c.ProofLERToRER != nil && c.ProofGERToL1Root != nil && c.L1Leaf != nil && c.L1Leaf.Inner != nil
+//@   modifies nothing
+//@   ensures[commits-to-the-three-proofs-and-the-leaf] result == keccak(catB(catB(catB(catB(emptyB(), bytesOf(hb(proofHash(c.ProofLeafLER.Root, c.ProofLeafLER.Proof)), 32)), bytesOf(hb(proofHash(c.ProofLERToRER.Root, c.ProofLERToRER.Proof)), 32)), bytesOf(hb(proofHash(c.ProofGERToL1Root.Root, c.ProofGERToL1Root.Proof)), 32)), bytesOf(hb(l1LeafHash(c.L1Leaf.Inner.GlobalExitRoot, c.L1Leaf.Inner.BlockHash, c.L1Leaf.Inner.Timestamp)), 32)))
